@@ -22,18 +22,25 @@ fn observe(v: &dyn ValueView, probes: &[Value]) -> J {
 }
 
 fn check(name: &str, got: &J, want: &J) -> Result<(), J> {
+    // every differing field is reported: `field` is the first, `also` the rest (a known finding about one field must not
+    // hide another difference of the same view)
+    let mut bad: Vec<(String, J, J)> = Vec::new();
     for k in ["type_name", "truthy", "default", "empty", "blank", "is_nil", "is_scalar", "is_array", "is_object", "size", "eq"] {
         if got[k] != want[k] {
-            return Err(json!({"view": name, "field": k, "got": got[k], "want": want[k]}));
+            bad.push((k.to_string(), got[k].clone(), want[k].clone()));
         }
     }
     if let Some(s) = want["render"].get("s") {
         let w = dec_text(s).unwrap_or_default();
         if got["render"].as_str() != Some(w.as_str()) || got["to_kstr"].as_str() != Some(w.as_str()) {
-            return Err(json!({"view": name, "field": "render/to_kstr", "got": [got["render"], got["to_kstr"]], "want": w}));
+            bad.push(("render/to_kstr".to_string(), json!([got["render"], got["to_kstr"]]), json!(w)));
         }
     }
-    Ok(())
+    if bad.is_empty() {
+        return Ok(());
+    }
+    let also: Vec<&str> = bad.iter().skip(1).map(|b| b.0.as_str()).collect();
+    Err(json!({"view": name, "field": bad[0].0, "got": bad[0].1, "want": bad[0].2, "also": also}))
 }
 
 /// the same datum as native Rust collections (None when it has no such form)
